@@ -183,21 +183,34 @@ def make_inputs(d, n):
     return paths
 
 
-def argv_for(d, cfg, workers):
+NAMINGS = [None, ["", ""], ["utt-", ".feat"], ["p_", ""]]   # --file-prefix / --file-suffix (None: the defaults "", ".pt")
+
+
+def fname(i_or_id, naming):
+    """file name of an utterance under a naming convention"""
+    uid = IDS[i_or_id] if isinstance(i_or_id, int) else i_or_id
+    pre, suf = naming if naming else ("", ".pt")
+    return pre + uid + suf
+
+
+def argv_for(d, cfg, workers, naming=None):
     a = [os.path.join(d, "map")]
     if CFGS[cfg] is not None:
         a.append(json.dumps(CFGS[cfg]))
     a += [os.path.join(d, "feat"), "--preprocess", '["dither"]', "--seed", str(SEED),
           "--manifest", os.path.join(d, "manifest.txt"), "--num-workers", str(workers)]
+    if naming:
+        # `--opt=value` so that an empty value is passed as such
+        a += ["--file-prefix=" + naming[0], "--file-suffix=" + naming[1]]
     return a
 
 
-def invoke(d, cfg, workers, fault, idx):
+def invoke(d, cfg, workers, fault, idx, naming=None):
     """one invocation of the real tool in a fresh interpreter; returns (returncode, event log lines)"""
     log = os.path.join(d, "events%d.log" % idx)
     env = dict(os.environ)
     env.update(PYTHONPATH=common.repo_src(), C10_FAULT=json.dumps(fault), C10_LOG=log,
-               C10_ARGV=json.dumps(argv_for(d, cfg, workers)), OMP_NUM_THREADS="1", MKL_NUM_THREADS="1")
+               C10_ARGV=json.dumps(argv_for(d, cfg, workers, naming)), OMP_NUM_THREADS="1", MKL_NUM_THREADS="1")
     env[common.GUARD] = "1"
     with open(os.path.join(d, "out%d.txt" % idx), "wb") as out:
         try:
@@ -219,7 +232,7 @@ def invoke(d, cfg, workers, fault, idx):
     return rc, events, tail
 
 
-def snapshot(d, n):
+def snapshot(d, n, naming=None):
     """what is on disk: per utterance (status, digest, ino, mtime_ns, size); manifest lines; stray files"""
     import torch
 
@@ -227,7 +240,7 @@ def snapshot(d, n):
     files = {}
     names = set(os.listdir(feat)) if os.path.isdir(feat) else set()
     for i in range(n):
-        name = IDS[i] + ".pt"
+        name = fname(i, naming)
         path = os.path.join(feat, name)
         if name not in names:
             files[i] = ("A", None, None)
@@ -257,7 +270,8 @@ def run_schedule(root, sc):
         paths = make_inputs(d, n)
         res = []
         for idx, f in enumerate(sc["faults"]):
-            pre = snapshot(d, n) if idx else None
+            naming = sc.get("naming")
+            pre = snapshot(d, n, naming) if idx else None
             corrupted = []
             if idx and sc.get("corrupt") and pre["manifest"]:
                 # inputs of listed utterances are not needed any more: a tool that does not recompute never reads them
@@ -267,8 +281,8 @@ def run_schedule(root, sc):
                             fh.write(b"not an audio file")
                         corrupted.append(i)
             fault = dict(kind="none") if f is None else dict(kind=f["kind"], k=f["k"], stage=f["stage"])
-            rc, events, tail = invoke(d, sc["cfg"], sc["workers"], fault, idx)
-            res.append(dict(rc=rc, events=events, tail=tail, pre=pre, post=snapshot(d, n), corrupted=corrupted))
+            rc, events, tail = invoke(d, sc["cfg"], sc["workers"], fault, idx, naming)
+            res.append(dict(rc=rc, events=events, tail=tail, pre=pre, post=snapshot(d, n, naming), corrupted=corrupted))
         return res
     finally:
         shutil.rmtree(d, ignore_errors=True)
@@ -302,13 +316,13 @@ def model_events(trace):
     return [(OBS[t[0]], int(t[1:])) for t in trace if t[0] in OBS]
 
 
-def impl_events(events):
+def impl_events(events, naming=None):
     res = []
+    names = {fname(i, naming): i for i in range(len(IDS))}
     for ln in events:
         w = ln.split(" ")
         if w[0] in ("pre", "post") and len(w) == 3:
-            name = w[2][:-3] if w[2].endswith(".pt") else w[2]
-            res.append((w[0], IDS.index(name) if name in IDS else name))
+            res.append((w[0], names.get(w[2], w[2])))
         elif w[0] in ("buf", "flushed") and len(w) == 3:
             res.append((w[0], IDS.index(w[2]) if w[2] in IDS else w[2]))
     return res
@@ -348,8 +362,11 @@ def random_schedule(r, nfaults=None):
         stage = r.choice(STAGES)
         faults.append(F(r.choice(["hard", "hard", "soft"]), k, stage))
         done += k - 1 + (1 if stage == "flushed" else 0)
-    return dict(n=n, cfg=cfg_of(n, r.random() < 0.3), workers=r.choice([0, 0, 0, 1, 2, 3]),
-                faults=faults + [None], corrupt=r.random() < 0.5)
+    sc = dict(n=n, cfg=cfg_of(n, r.random() < 0.3), workers=r.choice([0, 0, 0, 1, 2, 3]),
+              faults=faults + [None], corrupt=r.random() < 0.5)
+    if r.random() < 0.25:
+        sc["naming"] = r.choice(NAMINGS[1:])
+    return sc
 
 
 def schedules(ctx):
@@ -359,6 +376,11 @@ def schedules(ctx):
         dict(n=3, cfg=cfg_of(3), workers=0, faults=[F("hard", 2, "mid"), F("hard", 2, "post"), None], corrupt=True),
         dict(n=4, cfg=cfg_of(4), workers=2, faults=[F("soft", 3, "pre"), None], corrupt=True),
         dict(n=2, cfg=cfg_of(2), workers=0, faults=[F("soft", 2, "buf"), None], corrupt=False),
+        # other file naming conventions (--file-prefix / --file-suffix), the empty suffix included: a resume must
+        # recognise its own files whatever they are called
+        dict(n=3, cfg=cfg_of(3), workers=0, faults=[F("hard", 3, "pre"), None], corrupt=False, naming=["", ""]),
+        dict(n=3, cfg=cfg_of(3), workers=0, faults=[F("soft", 2, "post"), None], corrupt=True, naming=["utt-", ".feat"]),
+        dict(n=2, cfg=cfg_of(2), workers=0, faults=[F("hard", 2, "mid"), None], corrupt=False, naming=["p_", ""]),
     ]
     if ctx.tier == "thorough":
         for n in range(1, 6):
@@ -402,6 +424,9 @@ def check_schedule(ctx, sc, res, ref, mout):
     n = sc["n"]
     case = dict(n=n, cfg=sc["cfg"], workers=sc["workers"], seed=SEED, corrupt=bool(sc.get("corrupt")),
                 faults=[fault_tok(f) for f in sc["faults"]])
+    if sc.get("naming"):
+        case["naming"] = sc["naming"]
+        ctx.count("naming:%s|%s" % tuple(sc["naming"]))
     nf = sum(1 for f in sc["faults"] if f is not None)
     ctx.case(case, nontrivial=nf > 0, kind="schedule:%dfaults" % nf)
     ctx.count("n:%d" % n)
@@ -418,7 +443,7 @@ def check_schedule(ctx, sc, res, ref, mout):
     for idx, (f, r) in enumerate(zip(sc["faults"], res)):
         at = dict(case, invocation=idx)
         post = r["post"]
-        ev = impl_events(r["events"])
+        ev = impl_events(r["events"], sc.get("naming"))
         fired = "fault" in r["events"]
         ctx.count("invocation")
         ctx.count("rc:%s" % (r["rc"] if r["rc"] in (0, 137, "timeout") else "other"))
@@ -578,6 +603,8 @@ def replay(rp):
             faults.append(F("hard" if h == "h" else "soft", int(k), stage))
     sc = dict(n=case["n"], cfg=case.get("cfg", "raw"), workers=case.get("workers", 0), faults=faults,
               corrupt=case.get("corrupt", False))
+    if case.get("naming"):
+        sc["naming"] = case["naming"]
     root = tempfile.mkdtemp(prefix="c10-replay-", dir="/tmp")
     try:
         ref = run_schedule(root, dict(n=sc["n"], cfg=sc["cfg"], workers=0, faults=[None]))[0]["post"]
@@ -589,7 +616,7 @@ def replay(rp):
     for idx, r in enumerate(res):
         files, man = impl_view(r["post"], sc["n"], ref)
         print("invocation %d fault=%s rc=%s" % (idx, fault_tok(faults[idx]), r["rc"]))
-        print("  impl : files=%s manifest=%s events=%s" % (files, man, impl_events(r["events"])))
+        print("  impl : files=%s manifest=%s events=%s" % (files, man, impl_events(r["events"], sc.get("naming"))))
         if r["tail"]:
             print("  impl output tail:", r["tail"].replace("\n", " | ")[-300:])
         if idx < len(model):
